@@ -301,6 +301,12 @@ def check_c09(seed, tier):
             for im in prod.images:
                 doc = docs[im.name]
                 ks = list(range(len(doc) + 1))
+                if tier != "quick" and not (place == "local" and level == "1.5" and im is prod.images[0]):
+                    # thorough: EVERY prefix for one document; the other documents are sampled (closing brackets, cuts inside
+                    # multi-byte characters and 400 random cuts) — keeps the tier within minutes
+                    closers = [i + 1 for i, ch in enumerate(doc) if ch in b"}]"]
+                    inside = [i for i, ch in enumerate(doc) if 0x80 <= ch < 0xC0]
+                    ks = sorted(set([0, 1, 2, len(doc) - 1, len(doc)] + rng.sample(ks, min(len(ks), 400)) + rng.sample(closers, min(60, len(closers))) + inside))
                 if tier == "quick":
                     closers = [i + 1 for i, ch in enumerate(doc) if ch in b"}]"]
                     inside = [i for i, ch in enumerate(doc) if 0x80 <= ch < 0xC0]  # cuts inside a multi-byte character
